@@ -47,10 +47,18 @@ def run(ctx):
     # updated or re-derived afterwards ("every rekey publishes a public value never published before")
     import histcheck as hc, profiles, dumps
     def republish(scr, out):
+        import spec
         hits = []; seen = {}; cur = {}
+        try: rek = spec.predict_rekeyed(scr)
+        except Exception: rek = [None] * len(scr)
         for ln, (l, o) in enumerate(zip(scr, out)):
             parts = o.split('|')
             if l.split(' ')[0] == 'SETUP': seen = {}; cur = {}
+            # a rekey that reports success: every right of the policy must come out with a value it did not have before
+            if rek[ln] and len(parts) >= 3 and parts[2].startswith('MPK') and parts[0] == 'OK' and ' K=' in parts[2]:
+                items = dict(it.split('=', 1) for it in parts[2].split(' K=', 1)[1].split(' ') if '=' in it)
+                same = sorted(r for r in rek[ln] if r in items and r in cur and items[r].split('/')[-1] == cur[r])
+                if same: hits.append((ln, f'rekey succeeded and right {same[0]} keeps the public value {cur[same[0]]} it had before')); break
             if len(parts) >= 3 and parts[2].startswith('MPK') and parts[0] == 'OK' and ' K=' in parts[2]:
                 items = dict(it.split('=', 1) for it in parts[2].split(' K=', 1)[1].split(' ') if '=' in it)
                 for r, v in items.items():
